@@ -177,7 +177,7 @@ Value& MemberCONCATExpression::value(Context& ctx) const
           if (a0.isNull())
             rv->push_back(Value(Value::type_integer));
           else
-            rv->push_back(Value(Integer(*a0.numeric())));
+            rv->push_back(Value(Value::toInteger(*a0.numeric())));
           return val;
         }
         else if (a0.type() == Type::NO_TYPE)
